@@ -184,7 +184,7 @@ public:
         auto a = model->RSLang().MakeAuditor(); fresh.ok = a->CheckExpression(text); if (fresh.ok) fresh.type = TypeOf(a->GetType());
       }
       else if (k == "SchemaCheckExpression") { shared = ObsSchemaAuditor(*schemaAuditor, false, "", text, CstType::term, hint); auto a = model->RSLang().MakeAuditor(); fresh = ObsSchemaAuditor(*a, false, "", text, CstType::term, hint); }
-      else if (k == "SchemaCheckConstituenta") { const auto t = static_cast<CstType>(op.N(0)); shared = ObsSchemaAuditor(*schemaAuditor, true, op.S(1), text, t, hint); auto a = model->RSLang().MakeAuditor(); fresh = ObsSchemaAuditor(*a, true, op.S(1), text, t, hint); }
+      else if (k == "SchemaCheckConstituenta") { const auto t = TypeFrom(op.N(0)); shared = ObsSchemaAuditor(*schemaAuditor, true, op.S(1), text, t, hint); auto a = model->RSLang().MakeAuditor(); fresh = ObsSchemaAuditor(*a, true, op.S(1), text, t, hint); }
       else if (k == "Evaluate") {
         sim::TimeoutTag() = "evaluation";
         shared = ObsEval(*interp, text, hint);
@@ -209,7 +209,7 @@ public:
         memo.emplace(key, shared.extra);
         what = k + " (static generator, asked twice around other inputs)";
       }
-      else if (k == "EditEmplace") { model->Emplace(static_cast<CstType>(op.N(0)), text); compared = false; memo.clear(); c.Probe("context_changed_between_calls"); }
+      else if (k == "EditEmplace") { model->Emplace(TypeFrom(op.N(0)), text); compared = false; memo.clear(); c.Probe("context_changed_between_calls"); }
       else if (k == "EditSetExpr") { const auto l = ListOf(*model); if (!l.empty()) model->SetExpressionFor(l[static_cast<size_t>(op.N(0)) % l.size()], text); compared = false; memo.clear(); c.Probe("context_changed_between_calls"); }
       else compared = false;
     } catch (const std::exception& ex) {
